@@ -548,6 +548,20 @@ func (c *concWorld) verdict(init []kvp) {
 				h.in.closeRace = true
 			}
 		}
+		if h.in.closeRace {
+			s.Probe("ErrStoreClosed-from-call-overlapping-Close")
+		}
+	}
+	for _, h := range done {
+		if h.in.kind != mIterate || h.out.closed {
+			continue
+		}
+		for _, x := range done {
+			if x.client != h.client && x.in.write() && x.call < h.ret && h.call < x.ret {
+				s.Probe("iteration-overlapped-by-write")
+				break
+			}
+		}
 	}
 	model := concModel(init)
 	switch check(model, done, 1<<62) {
